@@ -58,6 +58,9 @@ func (ds *DataSchema) record(r *rand.Rand, o DataOpts, depth int) *refavro.Schem
 	ds.names++
 	s := &refavro.Schema{Type: "record", ObjectForm: true, Name: fmt.Sprintf("R%d", ds.names), Fields: []refavro.Field{}}
 	n := 1 + r.IntN(5)
+	if r.IntN(5) == 0 {
+		n = 6 + r.IntN(9) // wide records: runs of several adjacent fields can be projected away
+	}
 	if depth > 0 && r.IntN(10) == 0 {
 		n = 0
 	}
@@ -243,10 +246,13 @@ func (ds *DataSchema) GenDatum(r *rand.Rand, s *refavro.Schema, o DatumOpts, out
 		return rec
 	case "array":
 		n := 0
-		switch r.IntN(6) {
-		case 0:
-		case 1:
+		switch r.IntN(12) {
+		case 0, 1:
+		case 2, 3:
 			n = 1 + r.IntN(4*maxn)
+		case 4:
+			// long enough that per-type arenas grow several times within one record
+			n = 17 + r.IntN(90)
 		default:
 			n = 1 + r.IntN(maxn)
 		}
